@@ -6,6 +6,7 @@
 package c02
 
 import (
+	"encoding/json"
 	"fmt"
 	"io"
 	"math/big"
@@ -462,6 +463,18 @@ func Run(ctx *common.Ctx) {
 			continue
 		}
 		nb++
+		// reader configuration: mostly the default, sometimes another *read-base* / float format
+		s := s
+		conf := "default"
+		if ctx.Rng.Chance(35) {
+			s = slip.NewScope()
+			base := []int{2, 8, 10, 16, 36}[ctx.Rng.Intn(5)]
+			ff := []string{"single-float", "short-float", "double-float", "long-float"}[ctx.Rng.Intn(4)]
+			s.Let(slip.Symbol("*read-base*"), slip.Fixnum(base))
+			s.Let(slip.Symbol("*read-default-float-format*"), slip.Symbol(ff))
+			conf = fmt.Sprintf("read-base=%d float=%s", base, ff)
+		}
+		ctx.Hist("partB-conf:" + strings.SplitN(conf, " ", 2)[0])
 		whole := guard(func() (slip.Code, int) { return slip.Read(text, s), len(text) })
 		if strings.HasPrefix(whole.err, "other:") {
 			ctx.Violate("reading a text raised something other than a parse error or partial", string(text), show(whole), nil)
@@ -475,6 +488,67 @@ func Run(ctx *common.Ctx) {
 			if !sameObjs(whole, o) {
 				ctx.Violate("a stream cut into pieces reads differently from the same text read whole",
 					map[string]any{"text": string(text), "cuts": cuts, "eof_with_last_piece": eofWithData}, show(o), show(whole))
+			}
+		}
+		// the other entry points: objects pushed on a channel, objects handed to a callback, and
+		// one form at a time from the position the previous form ended at
+		{
+			var cuts []int
+			for c := 1; c < len(text); c++ {
+				if ctx.Rng.Chance(20) {
+					cuts = append(cuts, c)
+				}
+			}
+			push := guard(func() (slip.Code, int) {
+				ch := make(chan slip.Object, 1000)
+				slip.ReadStreamPush(&chunkReader{pieces: cut(text, cuts), eofWithData: ctx.Rng.Bool()}, s, ch)
+				close(ch)
+				var code slip.Code
+				for o := range ch {
+					code = append(code, o)
+				}
+				return code, 0
+			})
+			each := guard(func() (slip.Code, int) {
+				col := &collector{}
+				slip.ReadStreamEach(&chunkReader{pieces: cut(text, cuts), eofWithData: ctx.Rng.Bool()}, s, col)
+				return col.code, 0
+			})
+			ctx.Meta.Evaluations += 2
+			if whole.err == "" {
+				if !sameObjs(whole, push) {
+					ctx.Violate("ReadStreamPush over a cut stream delivers objects different from the text read whole",
+						map[string]any{"text": string(text), "cuts": cuts, "conf": conf}, show(push), show(whole))
+				}
+				if !sameObjs(whole, each) {
+					ctx.Violate("ReadStreamEach over a cut stream delivers objects different from the text read whole",
+						map[string]any{"text": string(text), "cuts": cuts, "conf": conf}, show(each), show(whole))
+				}
+				// one form at a time
+				var got slip.Code
+				pos, bad := 0, ""
+				for steps := 0; pos < len(text) && steps < 200; steps++ {
+					o := guard(func() (slip.Code, int) { return slip.ReadOne(text[pos:], s) })
+					if o.err != "" {
+						bad = o.err
+						break
+					}
+					if len(o.objs) == 0 {
+						break
+					}
+					got = append(got, o.objs...)
+					if o.pos <= 0 {
+						bad = "no progress"
+						break
+					}
+					pos += o.pos
+				}
+				ctx.Meta.Evaluations++
+				it := outcome{objs: got, err: bad}
+				if !sameObjs(whole, it) {
+					ctx.Violate("reading one form at a time, each from where the previous form ended, gives objects different from the text read whole",
+						map[string]any{"text": string(text), "conf": conf}, show(it), show(whole))
+				}
 			}
 		}
 		if len(text) <= 64 {
@@ -505,7 +579,53 @@ func Run(ctx *common.Ctx) {
 	header := "From Coq Require Import ZArith.\nFrom C02 Require Import Model Spec Corr.\nFrom GenC02 Require Import Tables.\n"
 	footer := "Definition res := Eval vm_compute in check_all tables esc cases.\nPrint res.\nDefinition gcount := Eval vm_compute in guard_count cases.\nPrint gcount.\n"
 	ctx.WriteShards("cases", header, "case", footer, terms, descs, 16)
-	ctx.ReplayKnownLisp()
+	replayKnown(ctx, s)
+}
+
+// witnesses of known / fixed findings: a text, a delivery and what must come out
+type witness struct {
+	Text     string `json:"text"`
+	Cuts     []int  `json:"cuts"`
+	Kind     string `json:"kind"` // stream-equals-whole | one-pos | count
+	Pos      int    `json:"pos"`
+	Count    int    `json:"count"`
+	Observed string `json:"observed"`
+}
+
+func replayKnown(ctx *common.Ctx, s *slip.Scope) {
+	for _, id := range common.SortedKeys(ctx.Known) {
+		var w witness
+		if err := json.Unmarshal(ctx.Known[id], &w); err != nil || w.Kind == "" {
+			continue
+		}
+		text := []byte(w.Text)
+		whole := guard(func() (slip.Code, int) { return slip.Read(text, s), len(text) })
+		switch w.Kind {
+		case "stream-equals-whole":
+			bad, got := false, ""
+			for _, eof := range []bool{true, false} {
+				o := guard(func() (slip.Code, int) {
+					return slip.ReadStream(&chunkReader{pieces: cut(text, w.Cuts), eofWithData: eof}, s)
+				})
+				if !sameObjs(whole, o) {
+					bad, got = true, show(o)
+				}
+			}
+			ctx.KnownResult(id, bad, got)
+		case "one-pos":
+			o := guard(func() (slip.Code, int) { return slip.ReadOne(text, s) })
+			ctx.KnownResult(id, o.pos != w.Pos, show(o))
+		case "count":
+			ctx.KnownResult(id, whole.err != "" || len(whole.objs) != w.Count, show(whole))
+		}
+	}
+}
+
+type collector struct{ code slip.Code }
+
+func (c *collector) Call(s *slip.Scope, args slip.List, depth int) slip.Object {
+	c.code = append(c.code, args[0])
+	return nil
 }
 
 var _ = os.Getenv
